@@ -19,6 +19,9 @@ def regField (r : Register) : BitVec 5 := if r.v.ule 30#8 = true then BitVec.set
 
 theorem regField_def (r : Register) : (if r.v.ule 30#8 = true then BitVec.setWidth 5 r.v else 31#5) = regField r := rfl
 
+theorem regField_zr : regField ⟨100#8⟩ = 31#5 := by decide
+theorem regField_sp : regField ⟨101#8⟩ = 31#5 := by decide
+
 theorem regField_gpr (r : Register) (h : r.v.ule 30#8 = true) : BitVec.setWidth 5 r.v = regField r := by
   simp [regField, h]
 
@@ -76,6 +79,36 @@ theorem regField_enc (r : Register) :
 theorem setWidth5_32 (v : BitVec 8) : BitVec.setWidth 5 (BitVec.setWidth 32 v) = BitVec.setWidth 5 v := by
   simp [BitVec.setWidth_setWidth_of_le]
 
+theorem filterMap_id_some {α : Type} (a : α) (l : List (Option α)) :
+    List.filterMap id (some a :: l) = a :: List.filterMap id l := by simp
+
+/-- a decoder field one bit wider than what the class theorem speaks about: low part + top bit -/
+theorem toNat_extract_succ (w : BitVec 32) (lo n : Nat) :
+    (BitVec.extractLsb' lo (n + 1) w).toNat = (BitVec.extractLsb' lo n w).toNat + 2 ^ n * (BitVec.extractLsb' (lo + n) 1 w).toNat := by
+  simp only [BitVec.extractLsb'_toNat, Nat.shiftRight_eq_div_pow]
+  have h1 : w.toNat / 2 ^ (lo + n) = w.toNat / 2 ^ lo / 2 ^ n := by rw [Nat.pow_add, Nat.div_div_eq_div_mul]
+  rw [h1, Nat.pow_succ, Nat.pow_one]
+  generalize w.toNat / 2 ^ lo = x
+  rw [Nat.mod_mul, Nat.add_comm]
+
+theorem ult_lit (a : BitVec 32) (k : Nat) : (a.ult (BitVec.ofNat 32 k) = true) ↔ a.toNat < k % 4294967296 := by
+  simp [BitVec.ult, BitVec.lt_def]
+theorem ule_lit8 (a : BitVec 8) (k : Nat) : (a.ule (BitVec.ofNat 8 k) = true) ↔ a.toNat ≤ k % 256 := by
+  simp [BitVec.ule, BitVec.le_def]
+theorem slt_lit (a : BitVec 32) (k : Nat) : (a.slt (BitVec.ofNat 32 k) = true) ↔ a.toInt < (BitVec.ofNat 32 k).toInt := by
+  simp [BitVec.slt]
+theorem sle_lit (a : BitVec 32) (k : Nat) : ((BitVec.ofNat 32 k).sle a = true) ↔ (BitVec.ofNat 32 k).toInt ≤ a.toInt := by
+  simp [BitVec.sle]
+
+theorem fits_of_bounds (v lo hi : Int) (h1 : lo ≤ v) (h2 : v ≤ hi) : fits v lo hi = true := by
+  simp [fits, h1, h2]
+
+/-- `bv_decide` declares its helper functions for an enumeration type (`Cond.enumToBitVec`, …) in the module where it
+first meets the type; meeting them here, once, keeps the generated theorem modules from declaring them several times -/
+theorem enum_helpers_declared (c : Cond) (sh : Shift) (e : Extend) (h1 : c = Cond.EQ) (h2 : sh = Shift.LSL)
+    (h3 : e = Extend.LSL) : c = Cond.EQ ∧ sh = Shift.LSL ∧ e = Extend.LSL := by
+  bv_decide (timeout := 600)
+
 /-- evaluate `spec "<literal>" [operands]` to `build <mnemonic> [operand readings]` (kernel-checked simprocs of KEval) -/
 macro "spec_eval" : tactic =>
   `(tactic| simp only [spec, splitW, kEndsWith, kSliceToString, kSliceCopy, kStartsWith, kAppend, Bool.false_eq_true,
@@ -110,7 +143,7 @@ theorem extract_of_mask (w M V : BitVec 32) (lo len : Nat) (h : w &&& M = V)
 `s' = emitted s w`; everything lands in the context, equations between variables are substituted -/
 macro "peel " hA:ident h:ident : tactic =>
   `(tactic| (revert $h:ident
-             simp only [sm_bind_pure_unit, lift_bind_run, asm_emit_u32 _ _ $hA, bind_ok, rassert_ok, pure_ok, enc_ok, encz_ok, encs_ok,
+             simp only [sm_bind_pure_unit, pure_bind, lift_bind_run, asm_emit_u32 _ _ $hA, bind_ok, rassert_ok, pure_ok, enc_ok, encz_ok, encs_ok,
                enczs_ok, ex_unit, Except.ok.injEq, Prod.mk.injEq, true_and, forall_exists_index, and_imp,
                NeonRegister.encoding, FLOAT_TYPE_SINGLE, FLOAT_TYPE_DOUBLE, REG_ZERO, REG_SP]
              intros
@@ -129,11 +162,15 @@ macro "method_pre " hc:term:max ppSpace dl:ident ppSpace df:ident : tactic =>
              case h => bv_decide (timeout := 600)
              repeat (obtain ⟨_, hc⟩ := hc)
              spec_eval
-             simp (disch := decide) only [$df:ident, fld, *, regField_enc, setWidth5_32, regField_def, extract_of_mask _ _ _ _ _ hc]))
+             simp (disch := decide) only [$df:ident, fld, *, regField_enc, setWidth5_32, regField_def, extract_of_mask _ _ _ _ _ hc]
+             try simp (disch := decide) only [toNat_extract_succ _ _ 1, toNat_extract_succ _ _ 2, toNat_extract_succ _ _ 3, toNat_extract_succ _ _ 4, toNat_extract_succ _ _ 5, *, extract_of_mask _ _ _ _ _ hc, Nat.reduceAdd, Nat.reduceMul,
+               Nat.reducePow, BitVec.reduceExtractLsb', BitVec.reduceSetWidth, BitVec.reduceToNat, BitVec.toNat_ofNat, Nat.reduceMod,
+               Nat.add_zero, Nat.zero_add, Nat.mul_zero, Nat.mul_one]))
 
 /-- second half: compare the two instructions operand by operand -/
 macro "method_fin" : tactic =>
-  `(tactic| (simp (disch := first | assumption | omega) [*, rz_field, rsp_field, rz_gpr, rsp_gpr, fpr_field, regField_gpr,
-               gz_one, gz_zero, gs_one, gs_zero, build, oreg, mk, guard', fpReg]))
+  `(tactic| (try simp only [ult_lit, slt_lit, sle_lit, Nat.reduceMod, BitVec.reduceToInt] at *
+             simp (disch := first | assumption | omega | decide) [*, regField_zr, regField_sp, REG_ZERO, REG_SP, filterMap_id_some, fits_of_bounds, Nat.mod_eq_of_lt, Int.emod_eq_of_lt, rz_field, rsp_field, rz_gpr, rsp_gpr, fpr_field, regField_gpr,
+               gz_one, gz_zero, gs_one, gs_zero, build, oreg, mk, guard', fpReg] <;> (first | with_reducible rfl | decide | omega)))
 
 end Dora.A64
